@@ -74,6 +74,7 @@ def run_stream(name, drv, model, make_gen, make_oracle, seed, episodes, nops, he
         pair = Pair(drv, use_model, env=env)
         orc = make_oracle()
         gen = make_gen(rng)
+        gen.ep = ep          # generators may place a directed episode at a fixed position of the run
         co = gen.episode(orc, nops)
         ops = []
         fails = []
